@@ -644,12 +644,48 @@ pub fn gen(seed: u64, count: usize, thorough: bool) -> String {
         writeln!(out, "case {k} mods={nmods}").unwrap();
         let mut lines: Vec<(usize, String, Vec<String>)> = Vec::new();
         let shutdown_mod = if g.r.chance(1, 4) { Some(g.r.below(nmods as u64) as usize) } else { None };
+        // module-level scenarios (each about one case in eight)
+        let stale_mod = if g.r.chance(1, 8) { Some(g.r.below(nmods as u64) as usize) } else { None };
+        let crowd_mod = if g.r.chance(1, 8) { Some(g.r.below(nmods as u64) as usize) } else { None };
         for m in 0..nmods {
+            if stale_mod == Some(m) {
+                // restart BEFORE a wake-up of the first incarnation fires: task A's wake-up at `long` is in
+                // flight when B shuts the module down; it restarts earlier than that; the new incarnation's
+                // timers lie beyond the stale wake-up
+                let u = g.unit;
+                let long = g.r.range(8, 13) * u;
+                let mut a = vec![format!("sleep {long}")];
+                if g.r.chance(1, 2) {
+                    a.push(format!("sleep {}", g.dur()));
+                }
+                let mut b = vec![format!("sleep {}", g.r.range(1, 3) * u), format!("restart {}", g.r.range(0, 3) * u)];
+                if g.r.chance(1, 2) {
+                    b.push(format!("timeout {} sleep {}", long + u, long + 3 * u));
+                }
+                lines.push((m, "A".to_string(), a));
+                lines.push((m, "B".to_string(), b));
+                if g.r.chance(1, 2) {
+                    let mut c = Vec::new();
+                    g.idiom(&mut c);
+                    lines.push((m, "c".to_string(), c));
+                }
+                continue;
+            }
             let ntasks = if thorough { g.r.range(1, 6) } else { *g.r.pick(&[1u64, 1, 2, 2, 3, 4, 6]) };
+            let ntasks = if crowd_mod == Some(m) { ntasks.max(3) } else { ntasks };
+            let crowd_at = g.r.range(1, 9) * g.unit;
             let restart_task = g.r.below(ntasks);
             for t in 0..ntasks {
                 let tag = format!("{}", ((if g.r.chance(1, 3) { b'a' } else { b'A' }) + t as u8) as char);
                 let mut prog = Vec::new();
+                if crowd_mod == Some(m) {
+                    // many timers in one slot: every task of the module first waits for the same instant
+                    prog.push(match g.r.below(3) {
+                        0 => format!("until {crowd_at}"),
+                        1 => format!("sleep {crowd_at}"),
+                        _ => format!("timeout {} sleep {}", crowd_at, crowd_at + g.unit),
+                    });
+                }
                 let n = if thorough { g.r.range(1, 5) } else { g.r.range(1, 3) };
                 for _ in 0..n {
                     g.idiom(&mut prog);
